@@ -11,12 +11,22 @@ spec/NtsPacket.tla   cell-level model of the NTS extension fields, the authentic
    class's region and runs the real receiving path.
 4. NtsPacketTrace.tla: monitor = property section on the recorded behaviour (VIOLATION), strict = outcome
    is what the specification predicts (DRIFT).
+5. Several associations in one process, overlapping exchanges: spec/NtsPacketAssoc.tla (clients with own keys,
+   own pool and own outstanding request; new / send / serve / recv / proc steps interleave; identifier storage
+   is a heap of buffers).  TLC explores every interleaving at small scope (per-client clauses OutstandingId,
+   Sound, Complete, CookieBinding, AuthenticOnly, RejectedInert), shows that the clauses FAIL with the fault
+   switches (one shared identifier buffer; cookies stored before the identifier comparison), and generates
+   complete schedules (every one at the smallest scope + simulated ones at a larger scope) that
+   harness/c10 TestC10Assoc replays step by step, in the generated order, on the real functions;
+   NtsPacketAssocTrace.tla judges every recorded step (monitor -> VIOLATION) and replays the specification
+   next to it (strict -> DRIFT).
 """
 import collections, os, threading
 import vlib
 
 JUDGED = {"ntpHeader", "uidField", "cookieField", "placeholderField", "nonceLenField", "ctLenField", "nonce", "ciphertext"}
 CLS = ("role", "nf", "kind", "region", "fi", "sub")
+STRICT = ("SPredicted", "SRecomputed", "SStored")
 
 
 def classes(raw):
@@ -40,13 +50,18 @@ def run(ctx):
               ("NtsPacket_f_ctclamp.cfg", "Sound", "ciphertext length clamped to the datagram"),
               ("NtsPacket_f_adhdr.cfg", "Sound", "associated data = NTP header only"),
               ("NtsPacket_f_parsepast2.cfg", "AuthenticOnly", "fields after the authenticator parsed")]
+    sfault = ("NtsPacket_f_storefirst.cfg", "RejectedInert", "cookies stored before the identifier comparison")
+    afaults = [("NtsPacketAssoc_f_sharedid.cfg", "OutstandingId", "one identifier buffer shared by all clients"),
+               ("NtsPacketAssoc_f_sharedid2.cfg", "Complete", "one identifier buffer shared by all clients"),
+               ("NtsPacketAssoc_f_storefirst.cfg", "RejectedInert", "cookies stored before the identifier comparison"),
+               ("NtsPacketAssoc_f_nouid.cfg", "OutstandingId", "uid comparison removed")]
     design = {}
 
     def design_level():
         try:
             r = ctx.tlc("NtsPacketMC", "NtsPacket_exh.cfg" if q else "NtsPacket_deep.cfg", timeout=900, workers=4)
             design["states"] = r["distinct"]
-            for cfg, inv, what in (faults[:2] if q else faults):
+            for cfg, inv, what in (faults[:2] if q else faults) + [sfault]:
                 f = ctx.tlc("NtsPacketMC", cfg, timeout=300, workers=2, allow_violation=True, tag="fault:" + cfg)
                 if f["violated"] != inv:
                     raise vlib.Inconclusive("vacuity check: %s is not violated by the faulty specification (%s)" % (inv, what))
@@ -56,15 +71,48 @@ def run(ctx):
         except Exception as e:          # re-raised in the main thread
             design["err"] = e
 
+    def assoc_design_level():
+        try:
+            for cfg, inv, what in afaults:
+                f = ctx.tlc("NtsPacketAssocMC", cfg, timeout=300, workers=1, allow_violation=True, tag="fault:" + cfg, specdir=adir)
+                if f["violated"] != inv:
+                    raise vlib.Inconclusive("vacuity check: %s is not violated by the faulty specification (%s)" % (inv, what))
+            design["astates"] = 0
+            for cfg in (["NtsPacketAssoc_exh.cfg"] if q else ["NtsPacketAssoc_deep.cfg", "NtsPacketAssoc_exh3.cfg"]):
+                r = ctx.tlc("NtsPacketAssocMC", cfg, timeout=1500, workers=4 if q else 6, specdir=adir)
+                design["astates"] += r["distinct"]
+        except Exception as e:          # re-raised in the main thread
+            design["aerr"] = e
+
+    assoc = {}
+    adir = ctx.private_specdir()
+
+    def assoc_level():
+        try:
+            _assoc_pipeline(ctx, q, assoc)
+        except Exception as e:          # re-raised in the main thread
+            assoc["err"] = e
+
     th = threading.Thread(target=design_level)
     th.start()
+    th2 = threading.Thread(target=assoc_level)
+    th2.start()
+    th3 = threading.Thread(target=assoc_design_level)
+    th3.start()
     try:
         _pipeline(ctx, q)
     finally:
         th.join()
+        th2.join()
+        th3.join()
     if "err" in design:
         raise design["err"]
-    ctx.log("TLC exhaustive: %d distinct states" % design["states"])
+    if "aerr" in design:
+        raise design["aerr"]
+    if "err" in assoc:
+        raise assoc["err"]
+    ctx.log("TLC exhaustive: %d distinct states (one packet), %d (several associations)" % (design["states"], design["astates"]))
+    _assoc_report(ctx, q, assoc)
 
 
 def _pipeline(ctx, q):
@@ -84,7 +132,7 @@ def _pipeline(ctx, q):
     vlib.write_ndjson(cp, cases)
     ctx.log("generator: %d behaviours -> %d classes" % (len(raw), len(cases)))
     # 3. the real code
-    trace, out = ctx.godriver("c10", "TestC10", cases=cp, timeout=1500)
+    trace, out = ctx.godriver("c10", "TestC10$", cases=cp, timeout=1500)
     recs = vlib.read_ndjson(trace)
     skipped = [x for x in recs if x["role"] == "skip"]
     zt = [x for x in recs if x["role"] == "note"]
@@ -130,17 +178,31 @@ def _pipeline(ctx, q):
         part = recs[i:i + chunk]
         pp = ctx.path("chunk.ndjson")
         clean = False
-        for attempt in range(16):
+        # first pass: monitor and strict invariants in one run (they are evaluated on the same bound variables);
+        # a strict failure is recorded as drift and the monitor is then run on its own
+        strict_done = False
+        cfg = "NtsPacketTrace_all.cfg"
+        for attempt in range(17):
             if not part or len(ctx.violations) >= 6:
                 break
             vlib.write_ndjson(pp, part)
-            ok, l, inv, tout = ctx.validate("NtsPacketTrace", "NtsPacketTrace_mon.cfg", pp, timeout=900)
+            ok, l, inv, tout = ctx.validate("NtsPacketTrace", cfg, pp, timeout=900)
             if ok:
                 clean = True
+                strict_done = strict_done or cfg == "NtsPacketTrace_all.cfg"
                 break
             if not l:
                 raise vlib.Inconclusive("monitor failed without a position:\n" + tout[-1500:])
             bad = part[l - 1]
+            was_all, cfg = cfg == "NtsPacketTrace_all.cfg", "NtsPacketTrace_mon.cfg"
+            if inv in STRICT:
+                if not was_all:
+                    raise vlib.Inconclusive("monitor configuration reported %s" % inv)
+                strict_done = True
+                ndrift += 1
+                ctx.drift.append("%s: outcome %s not what NtsPacket.tla predicts (%s) for %s" %
+                                 (inv, bad["out"], bad["pred"], {k: bad[k] for k in CLS + ("off", "bit", "val", "why")}))
+                continue
             ctx.violation(sig_of(inv, bad),
                           "real %s path: %s violated: mutation %s/%s%s at byte %d bit %d (value %d) of a %d-field packet -> %s"
                           % ({"req": "server", "resp": "client", "cookie": "cookie", "listener": "listener (StartIPServer)"}.get(bad["role"], bad["role"]), inv,
@@ -157,6 +219,8 @@ def _pipeline(ctx, q):
         if not clean:
             continue
         nval += len(part)
+        if strict_done:
+            continue
         ok, l, inv, tout = ctx.validate("NtsPacketTrace", "NtsPacketTrace_strict.cfg", pp, timeout=900)
         if not ok:
             ndrift += 1
@@ -191,4 +255,221 @@ def _pipeline(ctx, q):
                         "the server's order of calls is reproduced by the driver from core/server/server_ip.go "
                         "(DecodePacket, FirstCookie, Decode, provider.Get, Decrypt, ProcessRequest) and "
                         "core/client/client_ip.go (DecodePacket, ProcessResponse); the listeners themselves are not run",
-                        "small scope of the exhaustive TLC run: <= 3 (quick) / 5 (thorough) fields, one mutation per packet"]
+                        "small scope of the exhaustive TLC run: <= 3 (quick) / 5 (thorough) fields, one mutation per packet; "
+                        "several associations: 2 clients x 2 requests x 2 datagrams (quick, server step right after the send; thorough: "
+                        "server step interleaved freely) and 3 clients x 1 request (thorough)"]
+
+
+# ---------------------------------------------------------------------------------------------------------------
+# several associations in one process, overlapping exchanges (spec/NtsPacketAssoc.tla)
+# ---------------------------------------------------------------------------------------------------------------
+ASTRICT = ("SEnabled", "SEvent", "SState")
+AINV = ("OutstandingId", "Sound", "Complete", "CookieBinding", "AuthenticOnly", "RejectedInert", "RDirectionsDistinct")
+
+
+def _dimension(b):
+    """What a generated behaviour exercises of the new dimension (judged on the SPEC side).
+    overlap  : another client draws an identifier (new) while this client's request is outstanding (between its
+               send and its proc) - the situation in which identifier storage of two clients can interfere
+    midbuild : another client's new falls between this client's new and its send
+    cross    : a client gets an authentic response of its own association carrying the identifier ANOTHER client drew
+    stale    : ... carrying the identifier of its own EARLIER request
+    foreign  : the response to another association's request arrives at the client
+    genuine_after_overlap : the genuine response is processed after another client drew an identifier meanwhile"""
+    st = b["steps"]
+    owner = [x["c"] for x in st if x["act"] == "new"]           # who drew identifier u (1-based)
+    res = set()
+    sent, built, over = {}, {}, {}
+    rx = {}
+    for i, x in enumerate(st):
+        c, a = x["c"], x["act"]
+        if a == "new":
+            built[c] = i
+            for d in sent:
+                if d != c:
+                    res.add("overlap")
+                    over[d] = True
+            for d in built:
+                if d != c:
+                    res.add("midbuild")
+        elif a == "send":
+            built.pop(c, None)
+            sent[c] = i
+            over[c] = False
+        elif a == "recv":
+            rx[c] = x
+            if x["kind"] == "otherid":
+                res.add("cross" if owner[x["arg"] - 1] != c else "stale")
+            elif x["kind"] == "foreign":
+                res.add("foreign")
+        elif a == "proc":
+            if rx.get(c, {}).get("kind") == "genuine" and over.get(c):
+                res.add("genuine_after_overlap")
+            if rx.get(c, {}).get("kind") == "otherid" and over.get(c):
+                res.add("otherid_after_overlap")
+            nxt = next((y["act"] for y in st[i + 1:] if y["c"] == c), None)
+            if nxt not in ("recv", "abandon"):      # accepted: the exchange is over, nothing outstanding
+                sent.pop(c, None)
+        elif a == "abandon":
+            sent.pop(c, None)
+    return res
+
+
+def _assoc_pipeline(ctx, q, A):
+    d = ctx.private_specdir()
+    num = 120 if q else 1500
+    gen = {}
+
+    def sim():
+        try:
+            gen["sim"] = ctx.tlc("NtsPacketAssocGen", "NtsPacketAssoc_sim.cfg", workers=1, timeout=600, simulate="num=%d" % num,
+                                 depth=300, tag="assoc-sim", specdir=ctx.private_specdir())
+        except Exception as e:
+            gen["err"] = e
+    ths = threading.Thread(target=sim)
+    ths.start()
+    try:
+        g = ctx.tlc("NtsPacketAssocGen", "NtsPacketAssoc_gen.cfg", workers=1, timeout=600, tag="assoc-gen", specdir=d)
+    finally:
+        ths.join()
+    if "err" in gen:
+        raise gen["err"]
+    gs = gen["sim"]
+    seen, beh = set(), []
+    nexh = 0
+    for src, out in (("exh", g["out"]), ("sim", gs["out"])):
+        for b in ctx.emitted(out):
+            k = repr(b["steps"])
+            if k in seen:
+                continue
+            seen.add(k)
+            beh.append(b)
+            nexh += src == "exh"
+    dims = collections.Counter()
+    for b in beh:
+        for k in _dimension(b):
+            dims[k] += 1
+    A["behaviours"], A["exh"], A["dims"] = len(beh), nexh, dict(dims)
+    need = dict(overlap=200, midbuild=50, cross=100, stale=10, foreign=50, genuine_after_overlap=50, otherid_after_overlap=50)
+    short = {k: dims.get(k, 0) for k, v in need.items() if dims.get(k, 0) < v}
+    if nexh < 300 or len(beh) - nexh < num // 3 or short:
+        raise vlib.Inconclusive("assoc generator: %d + %d behaviours, too few of %s" % (nexh, len(beh) - nexh, short))
+    cp = ctx.path("assoc_cases.ndjson")
+    vlib.write_ndjson(cp, beh)
+    ctx.log("assoc generator: %d exhaustive + %d simulated behaviours, %d steps; %s"
+            % (nexh, len(beh) - nexh, sum(len(b["steps"]) for b in beh), dict(dims)))
+    trace, out = ctx.godriver("c10", "TestC10Assoc$", out_name="assoc.ndjson", cases=cp, timeout=900)
+    recs = vlib.read_ndjson(trace)
+    A["records"] = len(recs)
+    A["steps"] = sum(len(b["steps"]) for b in beh)
+    A["judged"] = sum(1 for x in recs if x["role"] != "-")
+    A["outcomes"] = dict(collections.Counter((x["role"], x["ekind"], x["out"]) for x in recs if x["role"] != "-"))
+    pre = set()
+    for b in beh:
+        acc = []
+        for x in b["steps"]:
+            acc.append((x["c"], x["act"], x["kind"], x["arg"]))
+            if x["act"] in ("serve", "proc"):
+                pre.add(tuple(acc))
+    A["distinct"] = len(pre)
+    # behaviours as lists of records
+    groups = collections.OrderedDict()
+    for x in recs:
+        groups.setdefault(x["bn"], []).append(x)
+    A["cut"] = sum(1 for bn, g_ in groups.items() if len(g_) < len(beh[bn - 1]["steps"])) + (len(beh) - len(groups))
+    A["viol"], A["drift"] = [], []
+
+    def write(gr):
+        tp, sp = ctx.path("assoc_trace.ndjson"), ctx.path("assoc_starts.ndjson")
+        flat, starts = [], []
+        for bn, g_ in gr.items():
+            starts.append(dict(s=len(flat) + 1, n=len(g_)))
+            flat += g_
+        vlib.write_ndjson(tp, flat)
+        vlib.write_ndjson(sp, starts)
+        return flat, {"trace.ndjson": tp, "starts.ndjson": sp}
+
+    def sched(g_, upto):
+        return " ".join("%d.%s%s" % (x["c"], x["act"], "(%s%s)" % (x["kind"], ",%d" % x["arg"] if x["arg"] else "") if x["act"] == "recv" else "")
+                        for x in g_ if x["i"] <= upto)
+
+    cls = lambda x: (x["role"], x["ekind"], x["out"], x["key"], x["dir"], x["uid"], x["pristine"], x["stored"] > 0, x["cok"])
+    gr = collections.OrderedDict(groups)
+    clean, strict_done = False, False
+    cfg = "NtsPacketAssocTrace_all.cfg"      # first pass: monitor and strict invariants in one run
+
+    def drift_of(r, flat):
+        l = ctx.trace_state_l(r["out"])
+        b = flat[l - 1] if l else None
+        return ("%s: step %s of client %s (%s -> %s; holds %s, sent %s, pool %s) is not what NtsPacketAssoc.tla does after: %s"
+                % (r["violated"], b and b["act"], b and b["c"], b and b["ekind"], b and b["out"], b and b["held"],
+                   b and b["wuid"], b and b["pool"], b and sched(groups[b["bn"]], b["i"])))
+
+    for attempt in range(9):
+        if not gr:
+            break
+        flat, files = write(gr)
+        r = ctx.tlc("NtsPacketAssocTrace", cfg, workers=4, timeout=900, files=files,
+                    allow_violation=True, tag="trace:" + cfg, specdir=d)
+        if not r["violated"]:
+            clean = True
+            strict_done = strict_done or cfg == "NtsPacketAssocTrace_all.cfg"
+            break
+        was_all, cfg = cfg == "NtsPacketAssocTrace_all.cfg", "NtsPacketAssocTrace_mon.cfg"
+        if was_all and r["violated"] in ASTRICT:
+            strict_done = True
+            A["drift"].append(drift_of(r, flat))
+            continue
+        l = ctx.trace_state_l(r["out"])
+        if not l or r["violated"] not in AINV:
+            raise vlib.Inconclusive("assoc monitor failed without a position / with %s:\n%s" % (r["violated"], r["out"][-1500:]))
+        bad = flat[l - 1]
+        A["viol"].append((r["violated"], bad, sched(groups[bad["bn"]], bad["i"])))
+        k = cls(bad)
+        gr = collections.OrderedDict((bn, g_) for bn, g_ in gr.items() if not any(cls(x) == k for x in g_))
+    A["validated"] = sum(len(g_) for g_ in gr.values()) if clean else 0
+    if clean and gr and not strict_done:
+        flat, files = write(gr)
+        r = ctx.tlc("NtsPacketAssocTrace", "NtsPacketAssocTrace_strict.cfg", workers=4, timeout=900, files=files,
+                    allow_violation=True, tag="trace:NtsPacketAssocTrace_strict.cfg", specdir=d)
+        if r["violated"]:
+            A["drift"].append(drift_of(r, flat))
+    A["samples"] = [dict(schedule=sched(g_, 99), judged=[{k: x[k] for k in ("c", "role", "ekind", "out", "key", "dir", "uid", "stored")}
+                                                         for x in g_ if x["role"] != "-"])
+                    for bn, g_ in list(groups.items())[len(groups) // 2:len(groups) // 2 + 1]]
+
+
+def _assoc_report(ctx, q, A):
+    for inv, bad, sch in A["viol"]:
+        ctx.violation("C10 %s %s %s assoc" % (inv, bad["role"], bad["ekind"]),
+                      "several associations in one process: %s violated for client %d: %s packet (right key %s, right direction %s, "
+                      "identifier of its outstanding request %s, own encoder's answer %s) -> %s, %d cookies taken; schedule: %s"
+                      % (inv, bad["c"], bad["ekind"], bad["key"], bad["dir"], bad["uid"], bad["pristine"], bad["out"], bad["stored"], sch),
+                      dict(record=bad, schedule=sch))
+    ctx.drift += A["drift"]
+    ctx.log("assoc driver: %d records (%d judged) of %d behaviours; %s" % (A["records"], A["judged"], A["behaviours"], A["dims"]))
+    ctx.notes.append("several associations in one process with overlapping exchanges (NtsPacketAssoc.tla): %d generated behaviours "
+                     "(%d = every complete schedule of 2 clients x 1 request x 1 datagram with genuine / other-identifier datagrams, %d simulated with 3 clients x 2 requests x 2 "
+                     "datagrams), %d steps replayed in the generated order on the real functions (each client on its own goroutine), "
+                     "%d judged verdicts. Behaviours exercising the dimension, counted on the generated schedules: %s. "
+                     "(overlap: another client draws an identifier while this client's request is outstanding; midbuild: between this "
+                     "client's NewRequestPacket and EncodePacket; genuine_after_overlap / otherid_after_overlap: the genuine response / an "
+                     "authentic response with another identifier is processed after such an overlap; cross: authentic response of the "
+                     "client's own association carrying the identifier another client drew; stale: ... of its own earlier request; "
+                     "foreign: another association's response arrives). "
+                     "Behaviours cut short because the real run left the schedule: %d. Outcomes: %s"
+                     % (A["behaviours"], A["exh"], A["behaviours"] - A["exh"], A["records"], A["judged"], A["dims"], A["cut"],
+                        {"%s/%s/%s" % k: v for k, v in sorted(A["outcomes"].items())}))
+    ctx.notes.append("RejectedInert (a response that is not accepted leaves the client's cookie pool as it was; pool read through "
+                     "Fetcher.VerifData before and after every ProcessResponse) is judged on every client record of both traces")
+    ctx.cov["evaluations"] = ctx.cov.get("evaluations", 0) + A["judged"]
+    ctx.cov["distinct_nontrivial"] = ctx.cov.get("distinct_nontrivial", 0) + A["distinct"]
+    ctx.cov["traces_validated_against_impl"] = ctx.cov.get("traces_validated_against_impl", 0) + A["validated"]
+    ctx.cov["assoc_behaviours"] = A["behaviours"]
+    ctx.cov["assoc_dimension_counts"] = A["dims"]
+    ctx.cov["rule"] = ctx.cov.get("rule", "") + (
+        "; several associations: complete schedules of NtsPacketAssoc.tla (all of the smallest scope, simulated ones of a larger "
+        "scope, duplicates removed), distinct = distinct schedule prefixes ending in a judged step (serve / proc)")
+    ctx.cov["samples"] = list(ctx.cov.get("samples", [])) + A["samples"]
+    ctx.assumptions.append("several associations: the steps of different clients are executed one at a time in the generated order "
+                           "(sequential consistency of the interleaving; truly simultaneous access - a data race - is not produced)")
